@@ -419,3 +419,26 @@ CHECKS["C06"] = dict(
         dict(name="e2e", test="TestE2E", kind="rapid", checks={"quick": 40, "thorough": 2000}, shards=16, timeout={"quick": 900, "thorough": 3400}, shrinktime="60s", gomaxprocs=4, crash_is_violation=True),
     ],
 )
+
+CHECKS["C09"] = dict(
+    pkg="c09", level="fault_enumeration",
+    engine="sim / tcpsim + verifpoint pause points in listener.Serve: the harness places Stop/Drain at named points of the bind loop",
+    rule=("part stop: rapid-generated cases: service kind {TCP, Redis}; port free or held by a plain listener during the first bind retry; backend "
+          "{responsive, silent (accepts, never answers), closed, chatty (surplus / unsolicited replies)}; Stop or StopListen+Stop placed "
+          "{before Start, immediately after Start, at the pause points before-bind / in the retry sleep / after-bind (before the listener is "
+          "published) / before the first Accept, or while serving 0..5 connections with 0..5 requests in flight each}, holding Serve at the "
+          "point for 0..30 ms. Oracle: Stop returns within 10 s (TCP with a silent backend: the configured idle time-out of 1 s + slack); "
+          "afterwards a connect to the listener address is not served, every client connection sees EOF/reset within 5 s, every backend "
+          "connection is closed and the number of goroutines with frames in samaritan/proc (listener, redis, tcp, hc monitor) is back to "
+          "the baseline within 5 s. part limit: connection limit L in {0,1,2,3,5,8} with generated bursts of 1..6 simultaneous opens, closes "
+          "and one StopListen: served-concurrently <= L at all times, connections under the limit are served (retried up to 5 s because a "
+          "client close is noticed asynchronously), after StopListen new connects are not served while every established connection still "
+          "is. Non-trivial: the stop is placed before the bind completed, or with >= 1 connection open, or with a non-responsive backend; "
+          "limit: more simultaneous attempts than L, or a drain. Distinct by canonical JSON."),
+    assumptions=["'not served' after Stop means connect refused or the connection closed without data (the port may be rebound by others)",
+                 "process-wide singletons (the shared TCP checker loop) are part of the goroutine baseline"],
+    parts=[
+        dict(name="stop", test="TestStop", kind="rapid", checks={"quick": 40, "thorough": 2500}, shards=16, timeout={"quick": 900, "thorough": 3400}, shrinktime="60s", gomaxprocs=4, crash_is_violation=True),
+        dict(name="limit", test="TestLimitAndDrain", kind="rapid", checks={"quick": 40, "thorough": 2500}, shards=16, timeout={"quick": 900, "thorough": 3400}, shrinktime="60s", gomaxprocs=4, crash_is_violation=True),
+    ],
+)
